@@ -65,7 +65,7 @@ PROPS['C12'] = {'units': ['C'], 'spec_tags': [], 'trusted': [TRUSTED_PARSE, TRUS
                 'panic freedom is an implicit obligation of every LIFTED function (panic!/unreachable!/assert!/unwrap/indexing/overflow carry preconditions); functions not lifted are covered only by the bounded fuzz (bounded_standins: typedfuzz), listed in functions_not_under_contract'],
                 'bounded': ['typedfuzz']}
 
-PROPS['C20'] = {'units': ['C'], 'spec_tags': [], 'bounded': [],
+PROPS['C20'] = {'units': ['C'], 'spec_tags': [], 'bounded': ['tagtable'],
                 'trusted': ["oracle: MPD's tag names (tag_item_names) and idle subsystem names, and the MusicBrainz meaning of the *_ID tags, transcribed into Tag::name / Subsystem::name (contracts/mpd_client/tag.vspec, client.vspec)",
                             'assumed contracts of std: str::eq_ignore_ascii_case == eq_ic, Cow<str>/str ==, cmp (uninterpreted total order str_cmp of the texts) and Hash::hash (new hasher state = uninterpreted function hash_str of old state and text) through N10 wrappers; char_indices yields the chars in order with byte offsets equal to the index over an ASCII prefix; Box<str>::from(&str), to_string (vx_base.rs)',
                             'N11: match_ignore_case! expanded by tools/macroexp.py from the macro_rules! definition in the same file',
